@@ -50,7 +50,7 @@ CLAIMED["C04"] = dict(
     ref="§3 C04")
 CLAIMED["C05"] = dict(
     technique="static analysis: symbolic interpretation of MIR expression trees (the three shuffle role functions, mask_and_shuffle and their closures evaluated over GF(2)-linear forms with one symbol per pairwise mask and message matching by step/sender/receiver; nothing is executed), dominator ordering with await settlement and `?` edges (verify before release, same table), verdict-guard polarity of every hash comparison, path rules on the whole-table transfers, field-order symmetry of writer/reader chains, constant relations on tag offsets",
-    text="Decides the share algebra of the three-party shuffle (outputs XOR to the input row, all pairwise masks cancel, the result is a consistent replicated sharing, only equally permuted tables are combined, three rounds keyed by three different helper pairs, verification tables pair up), the plumbing of the whole-table transfers on all paths (nothing truncated or dropped silently, empty tables, size word) and the detection wiring of the malicious shuffle: MAC tags are added before shuffling, verify_shuffle is awaited and `?`-propagated before the rows are released from the same table, each documented hash comparison is present, compares a local with a received hash and gates Ok; no Ok return of verify_shuffle or of a per-role verifier bypasses the key opening, a comparison or a hash send for any input (e.g. an empty output table), the tags are recomputed with the opened keys, and the hash that is compared absorbs every element of the table it is given; every shard takes part in each resharding step of the shuffle whatever it holds itself; report fields are packed and unpacked in the same order and the tag is cut at the share's byte size. The permutation/multiset property and output-share consistency are numerical and not decided.",
+    text="Decides the share algebra of the three-party shuffle (outputs XOR to the input row, all pairwise masks cancel, the result is a consistent replicated sharing, only equally permuted tables are combined, three rounds keyed by three different helper pairs, verification tables pair up), the plumbing of the whole-table transfers on all paths (nothing truncated or dropped silently, empty tables, size word) and the detection wiring of the malicious shuffle: MAC tags are added before shuffling, verify_shuffle is awaited and `?`-propagated before the rows are released from the same table, each documented hash comparison is present, compares a local with a received hash and gates Ok; no Ok return of verify_shuffle or of a per-role verifier bypasses the key opening, a comparison or a hash send for any input (e.g. an empty output table), the tags are recomputed with the opened keys, and the hash that is compared absorbs every element of the table it is given; every shard takes part in each resharding step of the shuffle whatever it holds itself; report fields are packed and unpacked in the same order and the tag is cut at the share's byte size. The permutation/multiset property and output-share consistency are numerical and not decided. One open known finding (reported as KNOWN-FINDING, not a violation): the MAC keys are opened with no barrier after the shuffle, so a rushing helper can learn them before its last shuffle message is sent and alter a row by a difference the linear MAC does not see (rule KEYS-barrier; demonstration in seeded/defects/C05-rushing-h2-demo.diff).",
     ref="§3 C05")
 
 CLAIMED["C11"] = dict(
